@@ -259,3 +259,186 @@ pub fn h_summary_calls() {
     let _ = (s.is_completed(), s.pkgbase(), s.pkgversion(), s.description_as_str(), s.to_string());
     sym::check("C17/summary-calls-return", true);
 }
+
+/// Long inputs: one unit repeated `n` times, everything concrete except the choice of shape. Reaches what the
+/// short symbolic inputs cannot: narrow (8-bit) counters, per-item state that overflows, and loops whose cost grows
+/// faster than the input (a path over the interpreter's step cap is reported as a hang).
+pub fn h_long() {
+    let n = sym::bound(300, 700);
+    match sym::choose("shape", 14) {
+        0 => {
+            // distinfo: one recognised line followed by many further tokens
+            let kw: &[u8] = [b"SHA1 (f) = ab" as &[u8], b"Size (f) = 1 bytes", b"$NetBSD: x", b"x"][sym::choose("kw", 4)];
+            let mut l = kw.to_vec();
+            for _ in 0..n {
+                l.extend_from_slice(b" x");
+            }
+            l.push(b'\n');
+            let d = Distinfo::from_bytes(&l);
+            let _ = d.as_bytes();
+        }
+        1 => {
+            // distinfo: many files, many checksum lines per file
+            let mut t: Vec<u8> = b"$NetBSD$\n\n".to_vec();
+            for i in 0..n {
+                t.extend_from_slice(format!("SHA1 (f{}) = ab\nRMD160 (f{}) = cd\nSize (f{}) = {} bytes\n", i % 200, i, i, i).as_bytes());
+                t.extend_from_slice(format!("SHA512 (patch-{}) = ef\n", i).as_bytes());
+            }
+            let d = Distinfo::from_bytes(&t);
+            let _ = (d.distfiles().len(), d.patchfiles().len());
+            let _ = d.as_bytes();
+        }
+        2 => {
+            // PLIST: many lines of every common kind
+            let mut t: Vec<u8> = Vec::new();
+            for i in 0..n {
+                t.extend_from_slice(format!("bin/f{}\n@comment c{}\n@ignore\nbin/g{}\n@cwd /p{}\n@pkgdep d{}-[0-9]*\n", i, i, i, i, i).as_bytes());
+            }
+            if let Ok(p) = Plist::from_bytes(&t) {
+                let _ = (p.files().len(), p.files_prefixed().len(), p.install_cmds().len(), p.uninstall_cmds().len());
+                let _ = (p.depends().len(), p.pkgdirs().len(), p.is_preserve());
+            }
+        }
+        3 => {
+            // PLIST: one long line (many words, many blanks)
+            let mut l: Vec<u8> = super::c14::CMDS[sym::choose("cmd", super::c14::CMDS.len())].as_bytes().to_vec();
+            for _ in 0..n {
+                l.extend_from_slice(b"  w");
+            }
+            let _ = PlistEntry::from_bytes(&l);
+            let _ = Plist::from_bytes(&l);
+        }
+        4 => {
+            // pkg_summary: many lines of one multi-line variable, long values, many '='
+            let mut t = String::new();
+            for i in 0..n {
+                t.push_str(&format!("DEPENDS=d{}>=1\nDESCRIPTION=line {} = {}\n", i, i, i));
+            }
+            t.push_str("COMMENT=");
+            for _ in 0..n {
+                t.push_str("=x");
+            }
+            t.push('\n');
+            if let Ok(s) = Summary::from_str(&t) {
+                let _ = s.to_string();
+            }
+        }
+        5 => {
+            // pkg_summary stream: many small writes, many entries
+            let mut s = SummaryStream::new();
+            let ev = super::c09::entry("é", b'a');
+            let e = &ev[..];
+            let step = 1 + sym::choose("step", 3) * 3;
+            let mut k = 0;
+            while k < n {
+                let mut i = 0;
+                while i < e.len() {
+                    let j = if i + step < e.len() { i + step } else { e.len() };
+                    let _ = s.write(&e[i..j]);
+                    i = j;
+                }
+                k += 60;
+            }
+            let _ = s.flush();
+            let _ = s.entries().len();
+        }
+        6 => {
+            // pbulk-index: many records, long dependency lists
+            let mut t: Vec<u8> = Vec::new();
+            for i in 0..n / 10 {
+                t.extend_from_slice(format!("PKGNAME=p{}-1.0\nPKG_LOCATION=c/p{}\nALL_DEPENDS=", i, i).as_bytes());
+                for j in 0..30 {
+                    t.extend_from_slice(format!("d{}-[0-9]*:../../c/d{} ", j, j).as_bytes());
+                }
+                t.extend_from_slice(b"\nnoise\n\nMULTI_VERSION=a b  c\n");
+            }
+            let _ = ScanIndex::from_reader(&t[..]).map(|v| v.len());
+        }
+        7 => {
+            // alternation: many alternatives and some nesting
+            let mut p = String::from("pk-{");
+            for i in 0..n / 4 {
+                p.push_str(&format!("{},", i));
+            }
+            p.push_str("{a,{b,{c,{d,e}}}}}");
+            if let Ok(c) = Pattern::new(&p) {
+                let _ = c.matches("pk-e");
+                let _ = c.matches("pk-zz");
+            }
+        }
+        8 => {
+            // versions with many components, long digit runs and many modifiers
+            let mut v = String::new();
+            let unit = ["1.", "0_", "rc", "a", "nb1", "99999999999"][sym::choose("unit", 6)];
+            for _ in 0..n {
+                v.push_str(unit);
+            }
+            let p = Pattern::new(&format!("pk>={}<{}9", v, v));
+            if let Ok(p) = p {
+                let a = format!("pk-{}", v);
+                let _ = p.matches(&a);
+                let _ = p.best_match(&a, "pk-1");
+            }
+            let nm = PkgName::new(&format!("pk-{}", v));
+            let _ = nm.pkgrevision();
+        }
+        9 => {
+            // package paths and dependencies with many separators
+            let unit = ["/", "./", "../", "a/", ":"][sym::choose("unit", 5)];
+            let mut s = String::new();
+            for _ in 0..n {
+                s.push_str(unit);
+            }
+            s.push_str("cat/pkg");
+            let _ = PkgPath::new(&s);
+            let _ = Depend::new(&s);
+            let _ = Depend::new(&format!("a-[0-9]*:{}", s));
+        }
+        10 => {
+            // names with many dashes
+            let mut s = String::new();
+            for i in 0..n {
+                s.push_str(if i % 3 == 0 { "-" } else { "a" });
+            }
+            let nm = PkgName::new(&s);
+            let _ = (nm.pkgbase().len(), nm.pkgversion().len());
+            if let Ok(p) = Pattern::new(&s) {
+                let _ = p.matches(&s);
+            }
+        }
+        11 => {
+            // Summary: many pushes onto one list, repeated sets
+            let mut s = Summary::new();
+            for i in 0..n {
+                c07::push_a(&mut s, 4, "d>=1");
+                if i % 50 == 0 {
+                    c07::set_s(&mut s, 2, "c");
+                    c07::set_i(&mut s, 7, i as i64);
+                }
+            }
+            let _ = s.to_string().len();
+        }
+        12 => {
+            // metadata: a long +CONTENTS / size text
+            let e = sym::choose("entry", 14);
+            let mut v = String::new();
+            for i in 0..n {
+                v.push_str(if e >= 10 { "9" } else { "line\n" });
+                let _ = i;
+            }
+            let mut m = Metadata::new();
+            let _ = m.read_metadata(c20::entry_of(e), &v);
+            let _ = m.is_valid();
+        }
+        _ => {
+            // digests of a long input through a reader that returns one byte at a time
+            let mut data: Vec<u8> = Vec::new();
+            for i in 0..n {
+                data.extend_from_slice(if i % 7 == 0 { b"$NetBSD$\n" as &[u8] } else { b"x\n" });
+            }
+            let d = Digest::from_str(["sha1", "BLAKE2s", "md5"][sym::choose("alg", 3)]).unwrap();
+            let _ = d.hash_patch(&mut &data[..]);
+        }
+    }
+    sym::check("C17/long-input-returns", true);
+}
